@@ -129,12 +129,21 @@ pub fn build_command(root: &Path, cfg: &Config) -> MosResult<()> {
         banks = new_banks;
     }
 
+    // Everything that can fail without touching the file system comes before the first write, so that a failing
+    // build leaves no (partial) output behind
+    let listings = if cfg.build.listing {
+        Some(to_listing(
+            &generated_code,
+            cfg.formatting.listing.num_bytes_per_line,
+        )?)
+    } else {
+        None
+    };
+
     bw.write_banks(banks, &target_dir, &filename)?;
 
-    if cfg.build.listing {
-        for (source_path, contents) in
-            to_listing(&generated_code, cfg.formatting.listing.num_bytes_per_line)?
-        {
+    if let Some(listings) = listings {
+        for (source_path, contents) in listings {
             let listing_path =
                 format!("{}.lst", source_path.file_stem().unwrap().to_string_lossy());
             let mut out = fs::File::create(target_dir.join(listing_path)).map_err(map_io_error)?;
